@@ -6,7 +6,7 @@
   Fields are separated by tabs.  Names are code points in hex separated by `.`, the empty
   name is `-`.
 -/
-import Stfs.Model.Handle
+import Stfs.Model.Sys
 import Stfs.Spec.RefFs
 namespace Stfs.Driver
 open Stfs
@@ -120,79 +120,56 @@ def parseEnv (fields : List String) : Env :=
   let l := kvs fields
   { now := kvInt l "now" 0, recs := parseRecs ((kv l "recs").getD "-") }
 
-def resLine {α} (r : Except Err α) (show_ : α → String) : String :=
-  match r with
-  | .ok a => let s := show_ a; if s.isEmpty then "res\tok" else "res\tok\t" ++ s
-  | .error e => "res\t" ++ encErr e
-
-def getHandle (s : DState) (id : Nat) : Option Handle := (s.handles.find? (·.1 == id)).map (·.2)
-def setHandle (s : DState) (id : Nat) (h : Handle) : DState :=
-  { s with handles := (id, h) :: s.handles.filter (·.1 != id) }
-def dropHandle (s : DState) (id : Nat) : DState := { s with handles := s.handles.filter (·.1 != id) }
-
 def nameArg (args : List String) (i : Nat) : Name := ((args[i]?).bind decName).getD []
 def natArg (args : List String) (i : Nat) : Nat := ((args[i]?).bind String.toNat?).getD 0
 def intArg (args : List String) (i : Nat) : Int := ((args[i]?).bind String.toInt?).getD 0
 
+/-- parse a protocol call -/
+def parseCall (method : String) (args : List String) : Option Call :=
+  match method with
+  | "initialize" => some (.init (nameArg args 0) (intArg args 1))
+  | "mkdir" => some (.mkdir (nameArg args 0) (intArg args 1))
+  | "mkdirall" => some (.mkdirAll (nameArg args 0) (intArg args 1))
+  | "remove" => some (.remove (nameArg args 0))
+  | "removeall" => some (.removeAll (nameArg args 0))
+  | "rename" => some (.rename (nameArg args 0) (nameArg args 1))
+  | "chmod" => some (.chmod (nameArg args 0) (intArg args 1))
+  | "chown" => some (.chown (nameArg args 0) (intArg args 1) (intArg args 2))
+  | "chtimes" => some (.chtimes (nameArg args 0) (intArg args 1) (intArg args 2))
+  | "symlink" => some (.symlink (nameArg args 0) (nameArg args 1))
+  | "stat" => some (.stat (nameArg args 0))
+  | "lstat" => some (.lstat (nameArg args 0))
+  | "readlink" => some (.readlink (nameArg args 0))
+  | "cat" => some (.cat (nameArg args 0))
+  | "create" => some (.create (natArg args 0) (nameArg args 1))
+  | "openfile" => some (.openFile (natArg args 0) (nameArg args 1) (natArg args 2) (intArg args 3))
+  | "open" => some (.open_ (natArg args 0) (nameArg args 1))
+  | "hwrite" => some (.hwrite (natArg args 0) (genBytes (natArg args 1) (natArg args 2)))
+  | "hsync" => some (.hsync (natArg args 0))
+  | "hclose" => some (.hclose (natArg args 0))
+  | "hreaddir" => some (.hreaddir (natArg args 0) (intArg args 1))
+  | _ => none
+
+def encVal : Val → String
+  | .unit => ""
+  | .name n => encName n
+  | .info i => encInfo i
+  | .infos is => ";".intercalate (is.map encInfo)
+  | .bytes b => toString b.length ++ " " ++ toString (polyHash b)
+  | .count n => toString n
+  | .badHandle => "badhandle"
+
 /-- run one call on the model; returns the new state and the `res` line -/
 def runCall (s : DState) (method : String) (args : List String) : DState × String :=
-  let f := s.fs
-  let env := s.env
-  let unit {α} (m : M α) (show_ : α → String) : DState × String :=
-    let (w, r) := m s.w
-    ({ s with w := w }, resLine r show_)
-  match method with
-  | "initialize" => unit (initFs f env (nameArg args 0) (intArg args 1)) encName
-  | "mkdir" => unit (mkdir f env (nameArg args 0) (intArg args 1)) (fun _ => "")
-  | "mkdirall" => unit (mkdirAll f env (nameArg args 0) (intArg args 1)) (fun _ => "")
-  | "remove" => unit (remove f env (nameArg args 0)) (fun _ => "")
-  | "removeall" => unit (removeAll f env (nameArg args 0)) (fun _ => "")
-  | "rename" => unit (rename f env (nameArg args 0) (nameArg args 1)) (fun _ => "")
-  | "chmod" => unit (chmod f env (nameArg args 0) (intArg args 1)) (fun _ => "")
-  | "chown" => unit (chown f env (nameArg args 0) (intArg args 1) (intArg args 2)) (fun _ => "")
-  | "chtimes" => unit (chtimes f env (nameArg args 0) (intArg args 1) (intArg args 2)) (fun _ => "")
-  | "symlink" => unit (symlink f env (nameArg args 0) (nameArg args 1)) (fun _ => "")
-  | "stat" => unit (fsStat (nameArg args 0)) (fun h => encInfo (Info.ofHdr h))
-  | "lstat" => unit (lstat (nameArg args 0)) (fun h => encInfo (Info.ofHdr h))
-  | "readlink" => unit (readlink (nameArg args 0)) encName
-  | "cat" => unit (cat f env (nameArg args 0)) (fun b => toString b.length ++ " " ++ toString (polyHash b))
-  | "create" | "openfile" | "open" =>
-    let id := natArg args 0
-    let m := match method with
-      | "create" => create f env (nameArg args 1)
-      | "open" => fsOpen f env (nameArg args 1)
-      | _ => openFile f env (nameArg args 1) (natArg args 2) (intArg args 3)
-    let (w, r) := m s.w
-    let s := { s with w := w }
-    (match r with
-     | .ok o => (setHandle s id (Handle.ofOpened o), "res\tok")
-     | .error e => (s, "res\t" ++ encErr e))
-  | "hwrite" =>
-    let id := natArg args 0
-    (match getHandle s id with
-     | none => (s, "res\tbadhandle")
-     | some h =>
-       let (w, r) := hWrite f h (genBytes (natArg args 1) (natArg args 2)) s.w
-       let s := { s with w := w }
-       match r with
-       | .ok (h, n) => (setHandle s id h, "res\tok\t" ++ toString n)
-       | .error e => (s, "res\t" ++ encErr e))
-  | "hsync" | "hclose" =>
-    let id := natArg args 0
-    (match getHandle s id with
-     | none => (s, "res\tbadhandle")
-     | some h =>
-       let (w, r) := (if method == "hsync" then hSyncNoLock f env h else hClose f env h) s.w
-       let s := { s with w := w }
-       match r with
-       | .ok h => ((if method == "hclose" then dropHandle s id else setHandle s id h), "res\tok")
-       | .error e => ((if method == "hclose" then s else s), "res\t" ++ encErr e))
-  | "hreaddir" =>
-    let id := natArg args 0
-    (match getHandle s id with
-     | none => (s, "res\tbadhandle")
-     | some h => unit (hReaddir h (intArg args 1)) (fun is => ";".intercalate (is.map encInfo)))
-  | _ => (s, "res\tbadcall")
+  match parseCall method args with
+  | none => (s, "res\tbadcall")
+  | some c =>
+    let (sys, r) := (Sys.step s.fs { w := s.w, handles := s.handles } s.env c)
+    let s := { s with w := sys.w, handles := sys.handles }
+    match r with
+    | .ok .badHandle => (s, "res\tbadhandle")
+    | .ok v => (s, let t := encVal v; if t.isEmpty then "res\tok" else "res\tok\t" ++ t)
+    | .error e => (s, "res\t" ++ encErr e)
 
 /-- everything observable after a call -/
 def observe (before : World) (s : DState) : List String :=
